@@ -1242,3 +1242,82 @@ def self_path(body, op_or_place, depth=8):
         proj = tuple(str(p_) for p_ in src[1] if str(p_).startswith(".")) + proj
         base = src[0]
     return None
+
+
+
+def _bool_subject(body, b):
+    """(root local, negated) of the bool a switch tests, when it is a value assigned exactly once (followed back
+    through copies and `!`): its value is the same at every test.  None otherwise"""
+    t = body.term(b)
+    if t["k"] != "switch" or switch_discr_place(body, b) is not None:
+        return None
+    pl = op_place(t["op"])
+    neg = False
+    for _ in range(8):
+        if pl is None or pl[1]:
+            return None
+        if body.local_ty(pl[0]) != "bool":
+            return None
+        ds = body.defs_of(pl[0])
+        if len(ds) > 1 and all(d_[1] != TERM and d_[2].get("k") == "use" and isinstance((op_const(d_[2].get("op")) or {}).get("bool", (op_const(d_[2].get("op")) or {}).get("int")), (bool, int)) for d_ in ds):
+            return pl[0], neg  # a flag: every assignment is a constant, the path knows which one it passed last
+        if len(ds) != 1:
+            return None
+        d = ds[0]
+        if d[1] == TERM:
+            return pl[0], neg
+        rv = d[2]
+        if rv["k"] == "use" and op_place(rv["op"]) is not None:
+            pl = op_place(rv["op"])
+            continue
+        if rv["k"] == "unop" and rv.get("op") == "Not" and op_place(rv.get("a")) is not None:
+            neg = not neg
+            pl = op_place(rv["a"])
+            continue
+        return pl[0], neg
+    return None
+
+
+def feasible_reach(body, starts, goals, avoid=(), cap=60000):
+    """is some block of `goals` reachable from `starts` without entering `avoid`, on a path that answers every test of
+    the same once-assigned bool the same way?  (`let a = f(); let b = g(); if !(a || b) { return } if a {..} if b {..}`:
+    no path skips both arms)"""
+    goals, avoid = set(goals), set(avoid)
+    seen, work, steps = set(), [(s_, frozenset()) for s_ in starts], 0
+    while work:
+        b, facts = work.pop()
+        if (b, facts) in seen or b in avoid:
+            continue
+        seen.add((b, facts))
+        steps += 1
+        if steps > cap:
+            return True
+        if b in goals:
+            return True
+        # a once-assigned value defined here is a new value (loops); a flag assigned a constant here has that value
+        fd = dict(facts)
+        for k in list(fd):
+            if any(d[0] == b for d in body.defs_of(k)):
+                del fd[k]
+        for s_ in body.stmts(b):
+            if "lhs" in s_ and not s_["lhs"][1] and s_["rv"].get("k") == "use" and body.local_ty(s_["lhs"][0]) == "bool":
+                kc = op_const(s_["rv"].get("op"))
+                if kc is not None and len(body.defs_of(s_["lhs"][0])) > 1:
+                    v_ = kc.get("bool", kc.get("int"))
+                    if isinstance(v_, (bool, int)):
+                        fd[s_["lhs"][0]] = bool(v_)
+        facts = frozenset(fd.items())
+        bs = _bool_subject(body, b)
+        if bs is not None:
+            r, neg = bs
+            tt, ft = switch_targets_bool(body.term(b))
+            known = dict(facts).get(r)
+            for tgt, val in ((tt, True), (ft, False)):
+                v = (not val) if neg else val
+                if known is not None and known != v:
+                    continue
+                work.append((tgt, facts if known is not None else frozenset(list(facts) + [(r, v)])))
+            continue
+        for s_ in body.succ[b]:
+            work.append((s_, facts))
+    return False
